@@ -13,6 +13,7 @@ import (
 	"fmt"
 	"os"
 	"path/filepath"
+	"sort"
 	"strconv"
 	"strings"
 	"sync"
@@ -25,7 +26,7 @@ import (
 
 var (
 	liveTokens = make(chan struct{}, poolSize()) // bound on live in-process servers (running or shutting down)
-	bgStops    sync.WaitGroup             // final shutdowns + directory removal
+	bgStops    sync.WaitGroup                    // final shutdowns + directory removal
 )
 
 // poolSize: a server holds its slot for ~1.7 s (two shutdowns of ~0.8 s), so the
@@ -524,13 +525,6 @@ func runCuts(b *built, cuts []int, workers int, visit func(ci cutInfo)) (fails [
 	}
 	wg.Wait()
 	wg2.Wait()
-	sort := func() {
-		for i := 1; i < len(fails); i++ {
-			for j := i; j > 0 && fails[j].Cut < fails[j-1].Cut; j-- {
-				fails[j], fails[j-1] = fails[j-1], fails[j]
-			}
-		}
-	}
-	sort()
+	sort.Slice(fails, func(i, j int) bool { return fails[i].Cut < fails[j].Cut })
 	return fails, hiccups, next
 }
